@@ -165,6 +165,23 @@ def _setup(prog: Dict[str, Any], root: str) -> Dict[str, Any]:
                                              Path(os.path.join(root, dests[0])))
     else:
         raise ValueError(caller)
+    # a second, independent writer of the same destination (another run of the same tool): other content, same call
+    call2 = None
+    new2: Optional[bytes] = None
+    if caller in ("bytes", "text", "json", "export"):
+        alt = (_content("medium", cs + 7, textual) or b"") + b"-second-writer"
+        d0 = os.path.join(root, dests[0])
+        if caller == "bytes":
+            call2, new2 = (lambda: atomic.atomic_write_bytes(d0, alt)), alt
+        elif caller == "text":
+            call2, new2 = (lambda: atomic.atomic_write_text(d0, alt.decode("utf-8"))), alt.decode("utf-8").replace("\r\n", "\n").encode("utf-8")
+        else:
+            obj_b = {"second": [7, alt.decode("utf-8")[:400]], "writer": "B"}
+            if caller == "json":
+                call2 = lambda: atomic.atomic_write_json(d0, obj_b)  # noqa: E731
+            else:
+                import clematis.scripts.console as console2
+                call2 = lambda: console2.write_json(d0, obj_b)  # noqa: E731
     olds[dests[0]] = old
     if len(dests) > 1:
         olds[dests[1]] = _content(prog.get("old_meta", "absent"), cs + 2, True)
@@ -175,7 +192,8 @@ def _setup(prog: Dict[str, Any], root: str) -> Dict[str, Any]:
         with _REAL["open"](p, "wb") as fh:
             fh.write(data)
         os.chmod(p, int(prog["mode"]))
-    return {"dests": dests, "old": olds, "call": call, "others": set(others), "consumes": set(others) if caller == "replace" else set()}
+    return {"dests": dests, "old": olds, "call": call, "others": set(others), "consumes": set(others) if caller == "replace" else set(),
+            "call2": call2, "new2": new2}
 
 
 def _run_case(prog: Dict[str, Any], faults: List[Dict[str, Any]], new: Optional[Dict[str, Optional[bytes]]],
@@ -194,6 +212,9 @@ def _run_case(prog: Dict[str, Any], faults: List[Dict[str, Any]], new: Optional[
         snapshot.time = atomic.time
         setup = _setup(prog, root)
         dests, olds = setup["dests"], setup["old"]
+        second_at = [int(f["k"]) for f in faults if f.get("kind") == "second_writer"]
+        faults = [f for f in faults if f.get("kind") != "second_writer"]
+        second: Dict[str, Any] = {"content": None, "exc": None, "ran": False}
         plan = FaultPlan(faults)
         fs = SimFS(root, names=rng.stream("tmpnames"), jitter=rng.stream("jitter"), plan=plan, clock=clock, trace_stat=True)
         partial: List[Tuple[int, str, str, int]] = []
@@ -201,12 +222,27 @@ def _run_case(prog: Dict[str, Any], faults: List[Dict[str, Any]], new: Optional[
         def allowed(rel: str, data: Optional[bytes]) -> bool:
             if data == olds.get(rel):
                 return True
+            if second["ran"] and rel == dests[0] and data == second["content"]:
+                return True   # the other writer's complete document
             return new is not None and data == new.get(rel)
 
         def reader(k: int, op: str, rel_ev: str) -> None:
             stats["reader_checks"] = stats.get("reader_checks", 0) + 1
             if new is None:
                 return
+            if second_at and k == second_at[0] and not second["ran"] and setup.get("call2") is not None:
+                # the second writer runs from start to end between two I/O steps of the first (its I/O is the harness's own)
+                second["ran"] = True
+                stats["second_writer_runs"] = stats.get("second_writer_runs", 0) + 1
+                try:
+                    setup["call2"]()
+                except Exception as e:  # noqa: BLE001
+                    second["exc"] = "%s(%s)" % (type(e).__name__, getattr(e, "errno", ""))
+                try:
+                    with _REAL["open"](os.path.join(root, dests[0]), "rb") as fh:
+                        second["content"] = fh.read()
+                except OSError:
+                    second["content"] = None
             for rel in dests:
                 data = fs.read(rel)
                 if not allowed(rel, data):
@@ -247,6 +283,11 @@ def _run_case(prog: Dict[str, Any], faults: List[Dict[str, Any]], new: Optional[
                     if _MISTAKABLE.search(n):
                         viol.append({"clause": "leftover-mistaken", "detail": "%s: leftover %r has a name readers accept" % (where, rel)})
 
+        if second["ran"]:
+            if second["exc"]:
+                viol.append({"clause": "second-writer-raised", "detail": "a second writer of %s, run between two I/O steps of the first, raised %s" % (dests[0], second["exc"])})
+            if outcome == "raised":
+                viol.append({"clause": "first-writer-raised", "detail": "the first writer raised %s because a second writer finished in between" % exc_repr})
         if new is not None:
             if partial:
                 k, op, rel, ln = partial[0]
@@ -260,7 +301,7 @@ def _run_case(prog: Dict[str, Any], faults: List[Dict[str, Any]], new: Optional[
                                          None if olds.get(rel) is None else len(olds[rel] or b""),
                                          None if new.get(rel) is None else len(new[rel] or b""))})
                 # (the sidecar writer is declared best-effort: it swallows failures, so no such claim there)
-                if outcome == "returned" and prog["caller"] != "sidecar" and final[dests[0]] != new.get(dests[0]):
+                if outcome == "returned" and prog["caller"] != "sidecar" and final[dests[0]] != new.get(dests[0]) and not second["ran"]:
                     if allowed(dests[0], final[dests[0]]):
                         viol.append({"clause": "lost-write", "detail": "%s returned normally but %s still holds the old content" % (prog["caller"], dests[0])})
                 leftover_check({"snap": fs.listing("snap"), "logs": fs.listing("logs")}, "after " + outcome)
@@ -372,6 +413,9 @@ def execute(prog: Dict[str, Any]) -> Dict[str, Any]:
     stats["events_per_write"] = len(base_trace)
     if prog.get("faults") == "ALL":
         cases = [[]] + _fault_cases(base_trace, Rng(int(prog["cseed"])).stream("double"), int(prog.get("double_faults", 3)))
+        if prog["caller"] in ("bytes", "text", "json", "export"):
+            # two writers of one destination: the second runs to completion after event k of the first, for every k
+            cases += [[{"k": k, "kind": "second_writer"}] for k in range(len(base_trace))]
     else:
         cases = [list(prog.get("faults") or [])]
     log_lines: List[str] = []
@@ -384,7 +428,7 @@ def execute(prog: Dict[str, Any]) -> Dict[str, Any]:
         for kf, n in res["fired"].items():
             faults_fired[kf] = faults_fired.get(kf, 0) + n
         stats["outcome_" + res["outcome"]] = stats.get("outcome_" + res["outcome"], 0) + 1
-        if fired or not faults:
+        if fired or not faults or faults[0].get("kind") == "second_writer":
             f0 = faults[0] if faults else {}
             op0 = base_trace[f0["k"]][1] if f0.get("k") is not None and f0["k"] < len(base_trace) else f0.get("op", "none")
             keys.append("%s|%s|%s|%s|%s|%s" % (prog["caller"], prog["old"], prog["new"], op0, f0.get("kind", "none"),
